@@ -145,14 +145,28 @@ Qed.
 (* non-vacuity: a real 3-iteration VEGAS run in double precision whose grid moves (libm replaced by an
    arbitrary finite stand-in: the theorems hold for every libm) *)
 From HepMC Require Import NumB.
-Definition ex19_L : Libm B64 := @Build_Libm B64 (fun x => sub B64 x (one B64)) (fun x _ => x).
+Definition ex19_L : Libm B64 := @Build_Libm B64 (fun x => div B64 (sub B64 x (one B64)) x) (fun x _ => x).
 Definition ex19_strm (n : N) : B64 := div B64 (ofN B64 (N.modulo (n * 7 + 3) 16)) (ofN B64 16).
 Definition ex19_f : integrand B64 := fun o => mk_iret (add B64 (one B64) (hd (zero B64) (o_point o))) [] false.
 Definition ex19_run := vegas_run ex19_L ex19_strm [] ex19_f 1 (fun _ => true) [8; 8; 8]%N (vchk_default 4 (one B64) 0) 0.
-Lemma c19_example : match ex19_run with
-  | Ok (c, _, ls) => length ls = 3%nat /\
+Definition pdf_out (p : pdf B64) : list outrep := map (Bout 53 1024) (pdf_x p).
+Definition outs_eqb (a b : list outrep) : bool :=
+  if list_eq_dec (fun x y : outrep => ltac:(decide equality; try apply Bool.bool_dec; try apply Z.eq_dec; apply Pos.eq_dec) : {x = y} + {x <> y}) a b then true else false.
+(* compared through the wire representation (sign, mantissa, exponent): the boundedness proofs carried by
+   Flocq's B754_finite are irrelevant and expensive to normalise *)
+Definition ex19_check : bool :=
+  match ex19_run with
+  | Ok (c, _, ls) =>
+      Nat.eqb (length ls) 3 &&
       match b_results (vc_base c) with
-      | [r0; r1; r2] => v_pdf r0 = uniform_pdf 1 4 /\ refine_pdf ex19_L (v_pdf r0) (one B64) (v_adj r0) = Ok (v_pdf r1) /\ v_pdf r1 <> v_pdf r0
-      | _ => False end
-  | UB _ => False end.
-Proof. vm_compute. repeat split; try reflexivity. intros H. discriminate H. Qed.
+      | [r0; r1; r2] =>
+          outs_eqb (pdf_out (v_pdf r0)) (pdf_out (uniform_pdf 1 4)) &&
+          match refine_pdf ex19_L (v_pdf r0) (one B64) (v_adj r0) with
+          | Ok p => outs_eqb (pdf_out p) (pdf_out (v_pdf r1))
+          | UB _ => false
+          end &&
+          negb (outs_eqb (pdf_out (v_pdf r1)) (pdf_out (v_pdf r0)))
+      | _ => false end
+  | UB _ => false end.
+Lemma c19_example : ex19_check = true.
+Proof. vm_compute. reflexivity. Qed.
